@@ -342,7 +342,10 @@ SMARTS = ['[C;D1]-[C;!R]=O', '[#6]-[#8]', '[O,N;D1]', 'c:c', '[C;D3](=O)[O;D1]',
           '[#6]1:[#6]:[#6]:[#6]:[#6]:[#6]:1', '[C;a]', 'cO', '[A]-[A]', '[O,S;D2]', '[C;D2;!R]', '[C;r3]', '[N,O].[N,O]', '[#7]~[#6]', 'C=,#C',
           '[C;h3]', '[c;D3]', '[A].[A]', '[F,Cl,Br,I]-c', '[C;D4]', '[#6]-[#6]-[#8]', '[C;r5,r6]', '[O;D1]=[C;D3]-[O,N]', '[A]1-[A]-[A]-1',
           # ring-membership marks on bonds
-          '[#6]-;!@[#6]', '[#6]-;@[#6]', '[#6]=;!@[#6]', '[#6]-,=;!@[#8]', '[#7]-;!@[#6]-;!@[#6]', '[#6]:;@[#6]', '[#6]-;@[#6]-;!@[#6]', '[C;r5,r6]-;!@[A]']
+          '[#6]-;!@[#6]', '[#6]-;@[#6]', '[#6]=;!@[#6]', '[#6]-,=;!@[#8]', '[#7]-;!@[#6]-;!@[#6]', '[#6]:;@[#6]', '[#6]-;@[#6]-;!@[#6]', '[C;r5,r6]-;!@[A]',
+          # primitives on the any-element atom A and on element lists (their __eq__ are separate code)
+          '[A;h1]', '[A;h1,h2]C', '[A;h0]', '[A;h1]C', '[A;D3]', '[A;x1]-[A]', '[A;z2]=[A]', '[A;h2]-[A;h0]', '[C,N;h1]', '[C,N,O;h0]', '[A;r6]',
+          '[A;D1;h3]-[A;h0]', '[A;h3]-[A;h1,h2]', '[O,S;h1]-[A;h0]', '[A;!R;D2]', '[C,N;D3]-[A;x0]']
 # the part of the SMARTS language that chython and RDKit read identically on neutral, isotope-free, radical-free targets whose aromatic
 # bonds both toolkits agree on: atomic numbers, lists of them, degree, bond orders - = # :, ring marks @ !@ on bonds
 RDKIT_SMARTS = ['[#6]-;!@[#6]', '[#6]-;@[#6]', '[#6]=;!@[#6]', '[#6]=;@[#6]', '[#6]-,=;!@[#8]', '[#6]-;@[#8]', '[#6]=[#8]', '[#6]-[#8]', '[#6]#[#7]',
@@ -523,14 +526,16 @@ def corr_smarts(ck, cs):
         for n, ms in t._bonds.items():
             for m in ms:
                 tb_id.setdefault(frozenset((n, m)), len(tb_id) + 1)
-        for s, q in rng.sample(qs, 4):
+        for s, q in rng.sample(qs, 6):
             qb_id = {}
             for n, ms in q._bonds.items():
                 for m in ms:
                     qb_id.setdefault(frozenset((n, m)), len(qb_id) + 1)
-            atab = [(qn, tn) for qn, qa in q._atoms.items() for tn, ta in t._atoms.items() if qa == ta]
+            # the truth tables handed to the model come from the INDEPENDENT evaluation of the primitives (own_atom_match / own_bond_match, no
+            # __eq__ of the library) wherever it decides: a wrong primitive in the library then shows up as a disagreement of the sequences
+            atab = [(qn, tn) for qn, qa in q._atoms.items() for tn, ta in t._atoms.items() if own_or_lib_atom(qa, t, tn)]
             btab = [(qb_id[qk], tb_id[tk]) for qk in qb_id for tk in tb_id
-                    if q._bonds[min(qk)][max(qk)] == t._bonds[min(tk)][max(tk)]]
+                    if own_or_lib_bond(q._bonds[min(qk)][max(qk)], t, min(tk), max(tk))]
             flt = rng.random() < .5
             scope = random_scope(rng, t)
             got = small_enough(q.get_mapping(t, automorphism_filter=flt, searching_scope=scope, _cython=False), 200)
@@ -1003,6 +1008,82 @@ def check_primitives(ck, p, t, ptxt, ttxt, mk):
                                           'own evaluation of the query-bond primitives',
                                           replay_py=mk + f'print(p._bonds[{x}][{x2}] == t._bonds[{y}][{y2}], t._bonds[{y}][{y2}].in_ring)')
     return good
+
+
+def own_or_lib_atom(qa, t, n):
+    r = own_atom_match(qa, t, n)
+    return bool(qa == t._atoms[n]) if r is None else r
+
+
+def own_or_lib_bond(qb, t, n, m):
+    r = own_bond_match(qb, t, n, m)
+    return bool(qb == t._bonds[n][m]) if r is None else r
+
+
+PRIM_KINDS = ['A', 'C', 'N', 'O', 'C,N', 'O,S', 'C,N,O', 'F,Cl,Br']
+PRIM_ATOM = ['h0', 'h1', 'h2', 'h3', 'h1,h2', 'h0,h3', 'D1', 'D2', 'D3', 'D4', 'D1,D2', 'x0', 'x1', 'x2', 'x1,x2', 'z1', 'z2', 'z3', 'z4', 'z1,z2',
+             'r3', 'r5', 'r6', 'r5,r6', '!R', '+', '-', 'D2;h0', 'D1;h3', 'h0;x1', 'z2;h0', 'D3;!R']
+PRIM_BOND = ['-', '=', '#', ':', '~', '-,=', '=,#', '-;@', '-;!@', '=;@', '=;!@', ':;@', '-,=;!@', '~;@', '~;!@']
+PRIM_TARGETS = ['CC(C)(C)C', 'COC(=O)NC', 'CC(=O)O', 'c1ccccc1O', 'C1CC1C(=O)N', 'OCC(O)CO', 'C#CC=C', 'CC(=O)[O-].[NH4+]', 'C[N+](C)(C)C', 'c1ccncc1C', 'C1CCCCC1C',
+                'CS(C)=O', 'FC(F)(F)CCl', 'C1CC2CC12', 'O=C=O', 'CC(C)=C(C)C', 'c1ccc2ccccc2c1', 'C1=CCCC1C=C', 'OC1CCOC1', 'N#CC1CCC1', 'C[O-].[Na+]', 'CN(C)C', 'COC']
+
+
+def search_primitive_grid(ck):
+    """every primitive of every kind of query atom (any-element A, element, element list) against every atom of a fixed set of targets, and
+    every bond primitive against every bond: the library's == versus the independent evaluation (pure-Python comparison, no matcher)"""
+    from chython import smiles, smarts
+    qatoms = []
+    for k in PRIM_KINDS:
+        for pr in PRIM_ATOM:
+            txt_ = f'[{k};{pr}]'
+            try:
+                qatoms.append((txt_, smarts(txt_)))
+            except Exception:  # noqa
+                ck.count('search:primitive-grid:smarts-rejected')
+    qbonds = []
+    for pr in PRIM_BOND:
+        txt_ = f'[A]{pr}[A]'
+        try:
+            qbonds.append((txt_, smarts(txt_)))
+        except Exception:  # noqa
+            ck.count('search:primitive-grid:smarts-rejected')
+    natom = nbond = 0
+    for ttxt in PRIM_TARGETS:
+        t = smiles(ttxt)
+        for qtxt, q in qatoms:
+            qa = q._atoms[1]
+            for y, ta in t._atoms.items():
+                mine = own_atom_match(qa, t, y)
+                if mine is None:
+                    continue
+                natom += 1
+                lib = bool(qa == ta)
+                if lib != mine:
+                    ck.counterexample(f'atom-match:{qtxt}:1>{ttxt}:{y}', 'query atom == target atom disagrees with the documented primitives evaluated on '
+                                      'independently recomputed attributes', {'pattern': qtxt, 'target': ttxt, 'target_atom': y,
+                                                                              'implicit_hydrogens': ta.implicit_hydrogens}, lib, mine,
+                                      'own evaluation of the query-atom primitives',
+                                      replay_py=f'from chython import smiles, smarts; q = smarts({qtxt!r}); t = smiles({ttxt!r}); '
+                                                f'print(q._atoms[1] == t._atoms[{y}], list(q.get_mapping(t, _cython=False)))')
+        for qtxt, q in qbonds:
+            qb = q._bonds[1][2]
+            for y, ns in t._bonds.items():
+                for y2, ob in ns.items():
+                    if y > y2:
+                        continue
+                    mine = own_bond_match(qb, t, y, y2)
+                    if mine is None:
+                        continue
+                    nbond += 1
+                    lib = bool(qb == ob)
+                    if lib != mine:
+                        ck.counterexample(f'bond-match:{qtxt}:1-2>{ttxt}:{y}-{y2}', 'query bond == target bond disagrees with order / ring membership evaluated '
+                                          'independently', {'pattern': qtxt, 'target': ttxt, 'target_bond': [y, y2]}, lib, mine,
+                                          'own evaluation of the query-bond primitives',
+                                          replay_py=f'from chython import smiles, smarts; q = smarts({qtxt!r}); t = smiles({ttxt!r}); '
+                                                    f'print(q._bonds[1][2] == t._bonds[{y}][{y2}])')
+    ck.extra['primitive_grid'] = {'atom_pairs': natom, 'bond_pairs': nbond, 'query_atoms': len(qatoms), 'query_bonds': len(qbonds)}
+    ck.case(('search-primitive-grid',), nontrivial=True)
 
 
 def brute(p, t, scope=None):
@@ -1691,6 +1772,7 @@ def search(ck):
     search_int(ck, 250 if ck.tier == 'quick' else 4000)
     search_lazy_product(ck, 200 if ck.tier == 'quick' else 3000)
     search_automorphism(ck, [('C.C', smiles('C.C'))] + targets)
+    search_primitive_grid(ck)
     search_stereo(ck)
     search_match_stereo(ck)
     search_self_text(ck)
